@@ -135,17 +135,20 @@ func Judge(c Config, q Request) (Verdict, string) {
 // RespHeader is one configured response header the answer must carry.
 type RespHeader struct {
 	Name, Value string
-	Required    bool // false: entry without ": " - may be skipped, but if sent the value must be complete
+	Required    bool // every entry that has a name and a colon: "Name:value" is a header line as good as "Name: value"
 }
 
 func WantRespHeaders(c Config) []RespHeader {
 	var out []RespHeader
 	for _, e := range c.RespHeaders {
-		n, v, ok := splitEntry(e)
-		if !ok {
+		// a response header line is "name ':' value": the name ends at the FIRST colon (a
+		// header name cannot hold one), blanks around the value do not count
+		i := strings.Index(e, ":")
+		if i <= 0 {
 			continue
 		}
-		out = append(out, RespHeader{Name: strings.TrimSpace(n), Value: strings.TrimSpace(v), Required: strings.Contains(e, ": ")})
+		n, v := e[:i], e[i+1:]
+		out = append(out, RespHeader{Name: strings.TrimSpace(n), Value: strings.TrimSpace(v), Required: true})
 	}
 	return out
 }
